@@ -238,12 +238,12 @@ Proof. intros ->. reflexivity. Qed.
 Lemma fl_to_string_head x s : json_float x = Ok s -> exists c r, s = c :: r /\ (c = 45 \/ is_digit_byte c).
 Proof.
   unfold json_float. destruct x as [| |n|m e]; try discriminate.
-  - cbn [fl_to_string]. destruct n; intros H; injection H as <-.
+  - cbn [fl_to_string_dom]. destruct n; intros H; injection H as <-.
     + eexists; eexists; split; [reflexivity|left; reflexivity].
     + exists 48, []. split; [reflexivity|right; unfold is_digit_byte; lia].
-  - destruct (fl_to_string (FFin m e)) as [t|] eqn:E; [|discriminate]. intros H.
+  - destruct (fl_to_string_dom (FFin m e)) as [t|] eqn:E; [|discriminate]. intros H.
     assert (t = s) as <- by congruence. clear H.
-    revert E. cbn [fl_to_string]. cbv zeta.
+    revert E. cbn [fl_to_string_dom]. cbv zeta.
     destruct (m <? 0)%Z.
     { intros E. destruct (0 <=? e)%Z.
       - destruct (_ <? 1000000)%Z; [|discriminate]. apply some_inj in E. subst t. eexists; eexists; split; [reflexivity|left; reflexivity].
@@ -420,9 +420,9 @@ Proof.
     exists j. split; [exact Hj|]. intros [|f] rest Hf Hs; [cbn in Hf; lia|].
     rewrite jv_parse_S. rewrite jv_body_number by (eapply fl_to_string_head; exact H).
     unfold json_float in H. destruct x as [| |n|m e]; try discriminate.
-    + destruct (fl_to_string (FZero n)) as [t|] eqn:E; [|discriminate]. injection H as <-.
+    + destruct (fl_to_string_dom (FZero n)) as [t|] eqn:E; [|discriminate]. injection H as <-.
       eapply json_number_float; eauto.
-    + destruct (fl_to_string (FFin m e)) as [t|] eqn:E; [|discriminate]. injection H as <-.
+    + destruct (fl_to_string_dom (FFin m e)) as [t|] eqn:E; [|discriminate]. injection H as <-.
       eapply json_number_float; eauto.
   - intros t Hok s H. cbn [json_ok] in Hok. injection H as <-. exists (JvStr t). split; [reflexivity|].
     intros [|f] rest Hf Hs; [cbn in Hf; lia|]. rewrite jv_parse_S.
@@ -568,7 +568,7 @@ Qed.
 (* the encoder fails only on NaN / infinities, and leaves the model only for floats outside the exact printing domain *)
 Fixpoint json_finite (v : value) : Prop :=
   match v with
-  | VFloat x => exists s, fl_to_string x = Some s /\ x <> FNaN /\ x <> FInf true /\ x <> FInf false
+  | VFloat x => exists s, fl_to_string_dom x = Some s /\ x <> FNaN /\ x <> FInf true /\ x <> FInf false
   | VList _ l => (fix all (l : list value) : Prop := match l with [] => True | x :: r => json_finite x /\ all r end) l
   | VMap _ m => (fix all (m : list (bstr * value)) : Prop := match m with [] => True | (k, x) :: r => json_finite x /\ all r end) m
   | _ => True
